@@ -251,9 +251,12 @@ def formatAmountQuantity (a : Amount) (formats : Option Formats) : Bytes :=
   | none => if !a.raw.isEmpty then a.raw else decString a.quantity true
 
 /-- `commodityText`: the symbol, in double quotes if it stood in double quotes in the source
-    (`content[c.Range.Start.Offset] == '"'`). -/
+    (`content[c.Range.Start.Offset] == '"'`); an empty symbol too when a commodity token was
+    really there (`""`, or a lone `"` at the end of a line) — fix "an empty quoted commodity keeps
+    its quotes"; a commodity-less amount has the zero range. -/
 def commodityText (c : Commodity) (content : Bytes) : Bytes :=
-  if !c.symbol.isEmpty && content[c.range.start.off]? == some 34 then [34] ++ c.symbol ++ [34]
+  if content[c.range.start.off]? == some 34 && (!c.symbol.isEmpty || c.range.stop.off > c.range.start.off)
+  then [34] ++ c.symbol ++ [34]
   else c.symbol
 
 /-- `writeAmountWithSign`: the bytes appended to the builder. -/
